@@ -161,11 +161,11 @@ PROPS["C15"]["thorough"]["jobs"].append(rapid_job("sm", "^TestC15SM$", 800, shar
 PROPS["C06"] = {
     "title": "Auto-fail and auto-pause fire exactly on their documented triggers",
     "level": "exploration",
-    "level_text": "Generated canary situations (0-3 up-to-date canary pods with 1-2 containers, restart counts at/below/above both thresholds, last-termination times, waiting reasons inside and outside the cannot-start set and ContainerCreating, start time around maxSlowStartDuration, every autoPause/autoFail enabled combination and threshold pair, optional maxSlowStartDuration/maxRestartsDuration/canaryTimeout, previous Canary/Canary-Paused/Canary-Failed/PodRestarting conditions with ages around the limits, pause/unpause annotations) are run through 1-4 real canary syncs (ExtendedDaemonSetReplicaSet Reconcile on the virtual clock) with pod changes in between; the stored Canary-Failed/Canary-Paused conditions are compared with a three-valued reference verdict (must / must-not / either at one-second boundaries and where the statement is silent), including stickiness of Failed, unpause overriding pause but not failure, disabled features never firing, and no canary pod creation in a sync that ends paused or failed. A metamorphic check (TestC06Order) runs every case with at least two pods a second time with status.canary.nodes in another order and demands equal verdicts and an equal restart timeline (first/latest observed restart) after every sync. The same verdict monitor runs in the canary-biased history tests.",
+    "level_text": "Generated canary situations (0-3 up-to-date canary pods with 1-2 containers, restart counts at/below/above both thresholds, last-termination times, waiting reasons inside and outside the cannot-start set and ContainerCreating, start time around maxSlowStartDuration, every autoPause/autoFail enabled combination and threshold pair, optional maxSlowStartDuration/maxRestartsDuration/canaryTimeout, previous Canary/Canary-Paused/Canary-Failed/PodRestarting conditions with ages around the limits, pause/unpause annotations) are run through 1-4 real canary syncs (ExtendedDaemonSetReplicaSet Reconcile on the virtual clock) with pod changes in between; the stored Canary-Failed/Canary-Paused conditions are compared with a three-valued reference verdict (must / must-not / either at one-second boundaries and where the statement is silent), including stickiness of Failed, unpause overriding pause but not failure, disabled features never firing, and no canary pod creation in a sync that ends paused or failed. A model-based check (TestC06Timeline) lets canary pods restart, disappear and come back between syncs and compares the PodRestarting condition with a model of the first and the newest restart any sync has observed (the latter never moves back). A metamorphic check (TestC06Order) runs every case with at least two pods a second time with status.canary.nodes in another order and demands equal verdicts and an equal restart timeline (first/latest observed restart) after every sync. The same verdict monitor runs in the canary-biased history tests.",
     "level_note": "One-second bands around every time limit are 'either' (stored timestamps are second-truncated); with zero evaluable pods only stickiness of Failed and the unpause rule are judged (the statement's premise is 'at least one up-to-date canary pod').",
     "technique": "property-based testing (rapid) against a three-valued reference verdict, multi-sync feedback of the stored status; metamorphic relation (evaluation order of the canary pods)",
-    "quick": {"jobs": [rapid_job("verdict", "^TestC06Verdict$", 2500, shards=4), rapid_job("order", "^TestC06Order$", 1500, shards=2)]},
-    "thorough": {"jobs": [rapid_job("verdict", "^TestC06Verdict$", 20000, shards=14, timeout="50m"), rapid_job("order", "^TestC06Order$", 20000, shards=8, timeout="50m")]},
+    "quick": {"jobs": [rapid_job("verdict", "^TestC06Verdict$", 2500, shards=4), rapid_job("order", "^TestC06Order$", 1500, shards=2), rapid_job("timeline", "^TestC06Timeline$", 800, shards=2)]},
+    "thorough": {"jobs": [rapid_job("verdict", "^TestC06Verdict$", 20000, shards=14, timeout="50m"), rapid_job("order", "^TestC06Order$", 20000, shards=8, timeout="50m"), rapid_job("timeline", "^TestC06Timeline$", 12000, shards=6, timeout="50m")]},
 }
 
 PROPS["C16"] = {
@@ -245,6 +245,6 @@ PROPS["C19"] = {
 NOT_APPLICABLE = {}
 
 # Replay tier: the shrunk failing case of every fixed defect as a plain deterministic check.
-for _p in ("C03", "C05", "C10", "C15", "C16", "C18", "C20"):
+for _p in ("C03", "C05", "C06", "C10", "C15", "C16", "C18", "C20"):
     for _t in ("quick", "thorough"):
         PROPS[_p][_t]["jobs"].append(rapid_job("regress", "^TestRegress%s$" % _p, 1))
